@@ -62,6 +62,9 @@ def config_s():
         "holder": st.sampled_from(["commit", "cancel"]),
         "merge": st.sampled_from(["no", "default", "opt"]),
         "after": st.sampled_from(["asis", "copy_to_ram", "reopen"]),
+        # size of the in-memory posting pool in MB: the tiny one makes every writer (and every MpWriter sub-process)
+        # spill sorted runs to temporary storage and merge them back
+        "limitmb": st.sampled_from([128, 128, 0.0005]),
     })
 
 
@@ -106,6 +109,9 @@ def build_config(case, cfg, path, info):
     kw = {}
     if not cfg["compound"]:
         kw["compound"] = False
+    if cfg.get("limitmb", 128) != 128:
+        kw["limitmb"] = cfg["limitmb"]
+        info["pool_spills"] = True
     ck = {}
     if cfg["merge"] == "no":
         ck["merge"] = False
@@ -206,6 +212,8 @@ def run(case, out):
         out.label("mp_two_or_more_processes")
     if has_del:
         out.label("has_deletes")
+    if info_all.get("pool_spills"):
+        out.label("posting_pool_spilled_to_runs")
 
 
 class _Prefix(object):
